@@ -130,6 +130,9 @@ class StateMachine(metaclass=StateMachineMetaclass):
     def __getstate__(self):
         state = self.__dict__.copy()
         state["_rtc"] = self._engine._rtc
+        # Decided here, on the complete original: while a copy is being rebuilt its model may
+        # still be empty (a model that holds a reference to its own machine).
+        state["_activated"] = self.current_state_value is not None
         del state["_callbacks"]
         del state["_states_for_instance"]
         del state["_engine"]
@@ -138,6 +141,7 @@ class StateMachine(metaclass=StateMachineMetaclass):
     def __setstate__(self, state):
         listeners = state.pop("_listeners")
         rtc = state.pop("_rtc")
+        activated = state.pop("_activated", True)
         self.__dict__.update(state)
         self._callbacks = CallbacksRegistry()
         self._states_for_instance: Dict[State, State] = {}
@@ -151,7 +155,8 @@ class StateMachine(metaclass=StateMachineMetaclass):
         # listeners attached after `_register_callbacks` decided between sync and async
         self._callbacks.async_or_sync()
         self._engine = self._get_engine(rtc)
-        self._engine.start()
+        if not activated:
+            self._engine.start()
 
     def _get_initial_state(self):
         initial_state_value = (
